@@ -31,6 +31,7 @@ def gen_seq(rng, sid, focus='c01', nops=None, conf=None):
         nkeys = max(nkeys, 3)
         keys = KEYPOOL[:nkeys]
         c['collide'] = [g]
+        c['hint_interval'] = rng.choice([0, 0, 300, 320])
     if conf:
         c.update(conf)
     n = nops or rng.choice([6, 10, 16, 24, 40])
@@ -68,6 +69,9 @@ def gen_seq(rng, sid, focus='c01', nops=None, conf=None):
             if rng.random() < 0.2:
                 rev = rng.randrange(1, 12)
             op = {'op': 'set', 'k': k, 'v': v, 'nblk': nblk, 'rev': rev}
+            if rng.random() < 0.08 and not c.get('collide'):
+                # a compressible value, small (Go-allocated compression buffer) or large (C-allocated: > ~3.7 KB raw)
+                op['comp'] = rng.choice([600, 1500, 4200, 9000])
             if rng.random() < 0.15:
                 op['flag'] = rng.choice([1, 2, 0x20, 0x300])
             ops.append(op)
@@ -315,7 +319,9 @@ def coll_templates():
                                         # (without GC everything stays in ONE data / hint file: the replay order inside a hint file
                                         #  is (hash, key), so a tombstone of a later-sorting key is replayed after its siblings)
                                         'conf': {'filemax_blk': 3 if gc else 9, 'splitcap': 9, 'rotflush': 'auto', 'bodymax_blk': 1, 'check_vhash': False,
-                                                 'buckets': 16, 'bucket': 15, 'height': 3, 'micro': False, 'collide': [['a', 'b', 'c']]},
+                                                 'buckets': 16, 'bucket': 15, 'height': 3, 'micro': False, 'collide': [['a', 'b', 'c']],
+                                                 # every other history with a hint-file index entry per item (the group straddles entries)
+                                                 'hint_interval': 300 if (n // 2) % 2 else 0},
                                         'ops': ops})
                             n += 1
     return out
